@@ -56,7 +56,7 @@ Levels == {49, 50, 51}
 
 (* ------------------------------------------------------------------------ *)
 Strata == {"create", "early", "join", "invite", "invite3p", "leaveself", "kick", "ban", "knock", "other3p", "badmember",
-           "generic", "tpievent", "plscalar", "plmaps", "plkinds", "redaction"}
+           "generic", "tpievent", "plscalar", "plmaps", "plkinds", "redaction", "aliastype"}
 
 VARIABLES phase, stratum, v, evs, e
 vars == <<phase, stratum, v, evs, e>>
@@ -274,6 +274,16 @@ NextRedaction ==
      /\ e' = [Ev("$e", "m.room.redaction", UA, FALSE, "", [C0 EXCEPT !.redactsserver = IF same THEN S1 ELSE S2])
                 EXCEPT !.idserver = S1]
 
+\* ---- two event types that an implementation may know as "the same" (a stable name and its unstable predecessor): the rules
+\* compare the `type` string of the event with the keys of `events`, nothing else
+TStable == "m.call.sdp_stream_metadata_changed"
+TUnstable == "org.matrix.call.sdp_stream_metadata_changed"
+NextAliasType ==
+  \E ls \in {AbsentV, IntV(0), IntV(100)}, lu \in {AbsentV, IntV(0), IntV(100)}, ty \in {TStable, TUnstable}, ed \in {AbsentV, IntV(100)} :
+     LET evmap == (IF ls = AbsentV THEN <<>> ELSE One(TStable, ls)) @@ (IF lu = AbsentV THEN <<>> ELSE One(TUnstable, lu)) IN
+     /\ evs' = Base \cup Members(One(UA, "join")) \cup {PLEv([PLUsers(One(UA.name, IntV(50))) EXCEPT !.events = evmap, !.events_default = ed])}
+     /\ e' = Ev("$e", ty, UA, FALSE, "", C0)
+
 Next == /\ phase = 0 /\ phase' = 1 /\ UNCHANGED <<stratum, v>>
         /\ CASE stratum = "create" -> NextCreate
              [] stratum = "early" -> NextEarly
@@ -292,6 +302,7 @@ Next == /\ phase = 0 /\ phase' = 1 /\ UNCHANGED <<stratum, v>>
              [] stratum = "plmaps" -> NextPLMaps
              [] stratum = "plkinds" -> NextPLKinds
              [] stratum = "redaction" -> NextRedaction
+             [] stratum = "aliastype" -> NextAliasType
 
 (* ------------------------------------------------------------------------ *)
 St == StateOf(evs)
